@@ -257,6 +257,9 @@ def run(tier):
         ev.cov["selftest"] = {"recorded": "2026-09-28", "tree": "/repo a9b77b7d + fixes/C02_pass0_declined_exit.patch + fixes/C02_extent_node_depth.patch",
                               "mutants/C01_pass5_bb_not_dirty.patch": "CAUGHT (second run repeats the block bitmap differences)",
                               "mutants/C01_pass4_nlink_not_stored.patch": "CAUGHT (second run repeats PR_4_BAD_REF_COUNT)",
+                              "mutants/C01_extent_split_lblk_not_advanced.patch": "CAUGHT 2026-09-29 on /repo 885045a6 (x:longext: every element whose run rebuilds the trees of the "
+                                                                                  "wover files; second run reports the overlapping / lost extent)",
+                              "seeded": "bin/seedcheck C01_1..C01_6 C01 all exit 1 on 2026-09-29 (C01_4 on x:bigdir_*_twosecond, C01_5 on x:longext, C01_6 on x:metabg32/64)",
                               "note": "recorded when the check was built with bin/selftest --patch <fixes + mutant> C01; not re-measured by a normal run"}
         ev.cov["verdicts"] = st
         ev.cov["failure_signatures"] = {k: len(v) for k, v in sorted(clusters.items())}
